@@ -17,7 +17,9 @@ def _md(it, name):
     for fname in ('a', 'b'):
         mt = it.fresh(T.enum(*MTYPES), fname + '.mtype')
         fmt = it.fresh(T.union(T.none, T.const('yes|no'), T.const('dd/MM/yyyy')), fname + '.format')
-        fields.append(SObj('Field', {'name': fname, 'mtype': mt, 'format': fmt, 'altnames': None,
+        # titles of the column (CSVW `titles`): absent, or a header text that differs from the declared name
+        alt = it.fresh(T.union(T.none, T.const(['Title of ' + fname])), fname + '.altnames')
+        fields.append(SObj('Field', {'name': fname, 'mtype': mt, 'format': fmt, 'altnames': alt,
                                      '__open__': False}))
     md = SObj('Metadata', {'fields': fields,
                            'delimiter': it.fresh(T.union(T.none, T.const('|')), 'delimiter'),
@@ -43,6 +45,10 @@ def expected_kwargs(it, md):
         kw['sep'] = md.attrs['delimiter']
     if md.attrs['encoding']:
         kw['encoding'] = md.attrs['encoding']
+    if any(f.attrs['altnames'] for f in fields):
+        # some header cell may hold a title instead of the declared name: the declared names replace the header row
+        kw['names'] = [f.attrs['name'] for f in fields]
+        kw['header'] = 0
     if md.attrs['header_rows'] == 0:
         kw['header'] = None
         kw['names'] = [f.attrs['name'] for f in fields]
